@@ -222,42 +222,93 @@ func (g *gen) doStart() {
 	if h == "" || g.rng.Float64() < 0.1 {
 		h = im.hosts[g.rng.Intn(len(im.hosts))]
 	}
-	a := full(h)
-	createOk := g.rng.Float64() < 0.92
-	setWoOk := g.rng.Float64() < 0.96
-	setRwOk := g.rng.Float64() < 0.96
-	clone := "NA"
-	revOk := g.rng.Float64() < 0.97
+	// the request names the elected replica first and, sometimes, further replicas (REST start with a
+	// replica list): each is attached and made RW in turn, then the revision counters are compared
+	hs := []string{h}
 	x := g.rng.Float64()
-	im.w.Script = map[string]string{}
-	im.w.NoCreate = map[string]bool{a: !createOk}
-	r := g.rep(h)
-	r.Clone = nil
-	if x < 0.05 {
-		clone = "error"
-		r.Clone = []string{"error"}
-	} else if x < 0.08 {
-		clone = "callfail"
-		im.w.Script[a+":GetCloneStatus"] = "err"
-	} else if x < 0.2 {
-		clone = "completed"
-		r.Clone = []string{"completed"}
+	extra := 0
+	switch {
+	case x < 0.55:
+	case x < 0.93:
+		extra = 1 + g.rng.Intn(2)
+	default:
+		extra = im.rf // one more than the replication factor allows
+		g.feat["start-over-rf"] = true
 	}
-	// SetReplicaMode is called twice (WO then RW): script by call count
-	im.w.ModeFail = map[string][2]bool{a: {!setWoOk, !setRwOk}}
-	if !revOk {
-		im.w.Script[a+":GetRevisionCounter"] = "err"
+	for _, o := range g.rng.Perm(len(im.hosts)) {
+		if extra == 0 {
+			break
+		}
+		if im.hosts[o] != h || g.rng.Float64() < 0.04 { // rarely the same address twice
+			hs = append(hs, im.hosts[o])
+			extra--
+		}
+	}
+	if len(hs) > 1 {
+		g.feat["start-multi"] = true
+	}
+	im.w.Script = map[string]string{}
+	im.w.NoCreate = map[string]bool{}
+	im.w.ModeFail = map[string][2]bool{}
+	var addrs, envs []string
+	seen := map[string]bool{}
+	for i, hh := range hs {
+		a := full(hh)
+		addrs = append(addrs, a)
+		r := g.rep(hh)
+		if seen[a] {
+			envs = append(envs, envs[len(envs)-1])
+			continue
+		}
+		seen[a] = true
+		createOk := g.rng.Float64() < 0.93
+		setWoOk := g.rng.Float64() < 0.96
+		setRwOk := g.rng.Float64() < 0.96
+		revOk := g.rng.Float64() < 0.97
+		clone := "NA"
+		r.Clone = nil
+		x := g.rng.Float64()
+		if x < 0.05 {
+			clone = "error"
+			r.Clone = []string{"error"}
+		} else if x < 0.08 {
+			clone = "callfail"
+			im.w.Script[a+":GetCloneStatus"] = "err"
+		} else if x < 0.2 {
+			clone = "completed"
+			r.Clone = []string{"completed"}
+		}
+		if i > 0 {
+			// the other replicas may have seen fewer or more writes than the elected one
+			if g.rng.Float64() < 0.6 {
+				r.Rev = int64(1 + g.rng.Intn(4))
+				g.feat["start-rev-differs"] = true
+			}
+			r.Size = 1 << 20
+			if g.rng.Float64() < 0.05 {
+				r.Size = 2 << 20
+				g.feat["start-size-mismatch"] = true
+			}
+		}
+		im.w.NoCreate[a] = !createOk
+		// SetReplicaMode is called twice (WO then RW): script by call count
+		im.w.ModeFail[a] = [2]bool{!setWoOk, !setRwOk}
+		rev := fmt.Sprint(r.Rev)
+		if !revOk {
+			im.w.Script[a+":GetRevisionCounter"] = "err"
+			rev = "-"
+		}
+		envs = append(envs, fmt.Sprintf("%s:%d:%s:%s:%s:%s", b01(createOk), r.Size, b01(setWoOk), clone, b01(setRwOk), rev))
 	}
 	im.w.ResetLog()
-	err := im.c.Start(a)
-	rev := fmt.Sprint(r.Rev)
-	if !revOk {
-		rev = "-"
-	}
+	err := im.c.Start(addrs...)
 	im.w.ModeFail = nil
+	for _, hh := range hs {
+		g.rep(hh).Size = 1 << 20
+	}
 	g.noteNewBackends()
-	g.emit(fmt.Sprintf("start %s | %s %d %s %s %s %s %s", a, b01(createOk), r.Size, b01(setWoOk), clone, b01(setRwOk), rev, g.ckEnv()),
-		classify(err, "Signalled replica to start"))
+	g.emit(fmt.Sprintf("start %s | %s %s", strings.Join(addrs, ","), strings.Join(envs, ";"), g.ckEnv()),
+		classify(err, "Signalled replica to start", "replicas to start"))
 	g.feat["start"] = true
 }
 
